@@ -67,7 +67,8 @@ def run_verus(rs_path, extra=(), rlimit=None, seed=None, threads=16, timeout=900
     cmd += list(extra)
     t0 = time.time()
     try:
-        r = subprocess.run(cmd, capture_output=True, text=True, timeout=timeout, cwd=os.path.dirname(rs_path))
+        import kanirun
+        r = kanirun.run_group(cmd, os.path.dirname(rs_path), None, timeout)   # own process group: z3 children die with it
     except subprocess.TimeoutExpired:
         raise extract.Undecided('verus timed out after %ds' % timeout)
     wall = time.time() - t0
